@@ -151,6 +151,8 @@ Next == \/ \E w \in Writers : GetWriterGuarded(w) \/ GetWriterBare(w)
         \/ \E w \in Writers, n \in 1..MAXN, k \in {"good", "bad"} : Write(w, n, k)
         \/ RunHead \/ ExecDone \/ Close \/ Delete \/ \E d \in DECLS : SetLength(d)
 Spec == Init /\ [][Next]_vars /\ WF_vars(RunHead) /\ WF_vars(ExecDone)
+\* the same without fairness: the liveness properties must FAIL here (control of the liveness checking itself)
+SpecUnfair == Init /\ [][Next]_vars
 
 \* ------------------------------------------------------------------ the property
 \* verified / on disk only with exactly the announced length and the right digest
